@@ -120,7 +120,16 @@ def source_pool(rng):
             continue
         seen.add(s)
         out.append((n, s.encode('utf-8')))
-    return out
+    # the same contents padded with line feeds to ONE common length: different files of exactly the same size (and
+    # different line layouts) meet at the same listing index of different directories - whatever is remembered per
+    # (file number, size) from one file must not reach the next
+    padded = []
+    for k, (n, b) in enumerate(out):
+        if k % 2 == 0 and len(b) < 2048 and (b.endswith(b'\n') or not b):
+            padded.append((n + ':pad2048', b + b'\n' * (2048 - len(b))))
+        elif k % 2 == 1 and len(b) < 2047:
+            padded.append((n + ':pad2048', b + b'\n' + b'\n' * (2047 - len(b))))
+    return out + padded
 
 
 # ----------------------------------------------------------------------------- per-file oracle
